@@ -113,7 +113,7 @@ def lake_build(targets):
 def theorem_names(prop_file, namespace):
     """Names of the theorems declared in a Props file (inside `namespace`)."""
     text = strip_comments(open(prop_file, encoding="utf-8").read())
-    return [f"{namespace}.{m.group(1)}" for m in re.finditer(r"^\s*theorem\s+([A-Za-z0-9_'.]+)", text, re.M)]
+    return [f"{namespace}.{m.group(1)}" for m in re.finditer(r"^\s*theorem\s+([^\s\(\{\[:]+)", text, re.M)]
 
 
 def audit_axioms(module, names, tag):
